@@ -97,6 +97,27 @@ func (lg *locGen) eventsRule(o map[string]interface{}) {
 		}
 		rule["condition"] = cond
 	}
+	if r.Intn(8) == 0 {
+		// a `when` with an array variable that an event binds SEVERAL ways, and a condition that accepts
+		// only one of the binding sets (one rule per element, so that for some rule an accepted set
+		// comes after a rejected one whatever the matcher's order): every binding set is walked
+		items := map[string]interface{}{"items": []interface{}{"A", "B", "C"}}
+		have := false
+		for _, e := range lg.events {
+			if _, ok := e["items"]; ok {
+				have = true
+			}
+		}
+		if !have {
+			lg.events = append(lg.events, items)
+		}
+		el := pick(r, "A", "B", "C").(string)
+		js := fmt.Sprintf("x === %s", jsLit(el))
+		tpl.sem[js] = map[string]interface{}{"t": "seq", "x": "x", "v": el}
+		tpl.bound = append(tpl.bound, "x")
+		rule["when"] = map[string]interface{}{"pattern": map[string]interface{}{"items": []interface{}{"?x"}}}
+		rule["condition"] = map[string]interface{}{"code": js}
+	}
 	n := 1 + r.Intn(3)
 	if n == 1 && r.Intn(2) == 0 {
 		rule["action"] = map[string]interface{}{"code": tpl.actionCode()}
